@@ -102,10 +102,25 @@ func c16GenRanges(r *Run, fn *ssa.Function) {
 		r.Fail("genRanges:next", r.FnPos(fn), fmt.Sprintf("expected one fetchRange literal, found %d/%d field stores", len(ss), len(es)))
 		return
 	}
-	S, ok := ss[0].Val.(*ssa.Phi)
-	if !ok {
-		r.Fail("genRanges:start-cursor", r.Where(ss[0]), "undecided: next.start is not the loop-carried cursor")
+	// the cursor: a variable carried round the loop, held in a register (φ) or in a cell that the
+	// goroutine captured and has to itself (rules_t5c16.go)
+	S := c16VarOf(r, fn, ss[0].Val)
+	if S.why != "" {
+		r.Fail("genRanges:start-cursor", r.Where(ss[0]), "undecided: next.start is not the loop-carried cursor: "+S.why)
 		return
+	}
+	sv := ss[0].Val
+	sends := sendsOn(fn, "chan scanner.fetchRange")
+	var header *ssa.BasicBlock
+	if S.phi != nil {
+		header = S.phi.Block()
+	} else {
+		h, why := c16CursorDiscipline(r, fn, S, ss[0].Block(), sends)
+		if why != "" {
+			r.Fail("genRanges:start-cursor", r.Where(ss[0]), "undecided: next.start is not the loop-carried cursor: "+why)
+			return
+		}
+		header = h
 	}
 	// the batch length is the minimum of two values — whichever way the minimum is taken (the
 	// builtin, a helper function whose body decides "the smaller of its two parameters", or an
@@ -116,7 +131,7 @@ func c16GenRanges(r *Run, fn *ssa.Function) {
 		return
 	}
 	M := mins[0].V
-	lS := r.D.Lin(S, nil)
+	lS := r.D.Lin(sv, nil)
 	// end = start + min − 1
 	diff := r.D.Lin(es[0].Val, nil).add(lS, -1)
 	wantDiff := r.D.Lin(M, nil).add(LinForm{Coef: map[string]int64{}, Const: 1}, -1)
@@ -124,7 +139,7 @@ func c16GenRanges(r *Run, fn *ssa.Function) {
 	// min(end − start, batch): one operand is end − start of the cursor, the other the batch size
 	var E ssa.Value
 	isRemaining := func(v ssa.Value) ssa.Value {
-		if b, ok := v.(*ssa.BinOp); ok && b.Op == token.SUB && b.Y == ssa.Value(S) {
+		if b, ok := v.(*ssa.BinOp); ok && b.Op == token.SUB && S.is(b.Y) {
 			return b.X
 		}
 		return nil
@@ -139,58 +154,172 @@ func c16GenRanges(r *Run, fn *ssa.Function) {
 		r.Fail("genRanges:batch-length.remaining", r.Where(mins[0].At), "first operand of min is "+r.D.Lin(rem, nil).String()+", not end − start of the cursor")
 	}
 	r.Check("genRanges:batch-length.batch", c16IsBatch(r, fn, bat), r.Where(mins[0].At), "second operand of min is the configured batch size: "+r.D.D(bat))
-	// cursor: entry edge StartIndex, back edge start + min
+	// cursor: first value StartIndex, next round's value start + min
 	entryOK, backOK := false, false
-	for i, e := range S.Edges {
-		if S.Block().Preds[i].Index < S.Block().Index && S.Block().Preds[i].Index == 0 {
-			entryOK = glob("*.opts.StartIndex", r.D.D(e))
-			continue
-		}
-		back := r.D.Lin(e, nil).add(lS, -1).String()
-		backOK = back == r.D.Lin(M, nil).String()
-		r.Check("genRanges:abut", backOK, r.Where(ss[0]), "next round's start − this round's start = "+back+" (must be the batch length, i.e. previous end + 1)")
-	}
-	r.Check("genRanges:first-start", entryOK, r.Where(ss[0]), "the first range starts at opts.StartIndex")
-	if E != nil {
-		ep, isPhi := E.(*ssa.Phi)
-		okE := isPhi
-		if isPhi {
-			for _, l := range PhiLeaves(ep, nil) {
-				if !glob("*.opts.EndIndex", r.D.D(l)) {
-					okE = false
+	if S.phi != nil {
+		for i, e := range S.phi.Edges {
+			if S.phi.Block().Preds[i].Index < S.phi.Block().Index && S.phi.Block().Preds[i].Index == 0 {
+				entryOK = true
+				for _, in := range c16Resolve(r, fn, e) {
+					if !c16OptsField(r, in, "StartIndex") {
+						entryOK = false
+					}
 				}
+				continue
+			}
+			back := r.D.Lin(e, nil).add(lS, -1).String()
+			backOK = back == r.D.Lin(M, nil).String()
+			r.Check("genRanges:abut", backOK, r.Where(ss[0]), "next round's start − this round's start = "+back+" (must be the batch length, i.e. previous end + 1)")
+		}
+		r.Check("genRanges:first-start", entryOK, r.Where(ss[0]), "the first range starts at opts.StartIndex")
+	} else {
+		for _, st := range S.stores {
+			back := r.D.Lin(st.Val, nil).add(lS, -1).String()
+			backOK = back == r.D.Lin(M, nil).String()
+			r.Check("genRanges:abut", backOK, r.Where(st), "next round's start − this round's start = "+back+" (must be the batch length, i.e. previous end + 1)")
+		}
+		entryOK = len(S.inits) > 0
+		first := ""
+		for _, in := range S.inits {
+			if !c16OptsField(r, in, "StartIndex") {
+				entryOK = false
+			}
+			first += " " + c16Strip(r.D.D(in.v)) + in.by(r)
+		}
+		r.Check("genRanges:first-start", entryOK, r.Where(ss[0]), "the first range starts at opts.StartIndex:"+first)
+	}
+	var EV *c16Var
+	if E != nil {
+		// where the end comes from: initially and after every assignment, the configured
+		// opts.EndIndex of this fetcher — read once Prepare has fitted it to the tree, or after
+		// an STH update
+		EV = c16VarOf(r, fn, E)
+		okE := EV.why == ""
+		detail := EV.why
+		var srcs []c16Init
+		if EV.phi != nil {
+			for _, l := range PhiLeaves(EV.phi, nil) {
+				srcs = append(srcs, c16Resolve(r, fn, l)...)
+			}
+		} else if okE {
+			srcs = append(srcs, EV.inits...)
+			for _, st := range EV.stores {
+				srcs = append(srcs, c16Init{fn: fn, v: st.Val})
 			}
 		}
-		r.Check("genRanges:end-bound", okE, r.Where(mins[0].At), "the range end is opts.EndIndex (re-read only after an STH update)")
+		if okE && len(srcs) == 0 {
+			okE, detail = false, "no value is ever assigned to the end"
+		}
+		// ... and an STH update is followed by a fresh assignment of the end
+		if upd := CallsTo(fn, "(*scanner.Fetcher).updateSTH"); okE && len(upd) == 1 {
+			refreshed := false
+			if EV.phi != nil {
+				for _, l := range PhiLeaves(EV.phi, nil) {
+					if li, ok := l.(ssa.Instruction); ok && c16Precedes(upd[0], li) {
+						refreshed = true
+					}
+				}
+			} else {
+				for _, st := range EV.stores {
+					if c16Precedes(upd[0], st) {
+						refreshed = true
+					}
+				}
+			}
+			if !refreshed {
+				okE, detail = false, "the end is not assigned afresh after the STH update"
+			}
+		}
+		var direct []c16Init
+		for _, in := range srcs {
+			ok, isDirect, d := c16EndSource(r, in)
+			if !ok {
+				okE = false
+				detail += "; " + d + in.by(r)
+			} else if isDirect {
+				direct = append(direct, in)
+			}
+		}
+		r.Check("genRanges:end-bound", okE, r.Where(mins[0].At), "the range end is opts.EndIndex (re-read only after an STH update)"+c16Detail(detail))
+		if okE {
+			okP, dP := true, ""
+			for _, in := range direct {
+				if ok, d := c16CurrentRead(r, in, fn); !ok {
+					okP = false
+					dP += "; " + d
+				}
+			}
+			if len(direct) == 0 {
+				okP, dP = false, "undecided: the first end is not a read of opts.EndIndex"
+			}
+			r.Check("genRanges:end-as-prepared", okP, r.Where(mins[0].At), "the end in force is opts.EndIndex as Prepare (or an STH update) left it"+c16Detail(dP))
+		}
 	}
 	// loop condition table
 	if E != nil {
+		// the comparisons of the cursor with the end: the end may be held in several registers
+		// (one φ per loop header it is carried round) — they all stand for the one variable
+		endD := map[string]bool{r.D.D(E): true}
+		if ep, ok := E.(*ssa.Phi); ok {
+			seen := map[*ssa.Phi]bool{}
+			var web func(p *ssa.Phi)
+			web = func(p *ssa.Phi) {
+				if seen[p] {
+					return
+				}
+				seen[p] = true
+				endD[r.D.D(p)] = true
+				for _, e := range p.Edges {
+					if q, ok := e.(*ssa.Phi); ok {
+						web(q)
+					}
+				}
+			}
+			web(ep)
+		}
 		ordKey := ""
+		ordKeys := map[string]bool{} // key → the cursor is the atom's second operand
 		for k, ci := range r.D.AtomsOf(fn) {
-			if ci.Kind == "ord" && ((ci.A == r.D.D(S) && ci.B == r.D.D(E)) || (ci.B == r.D.D(S) && ci.A == r.D.D(E))) {
-				ordKey = k
+			if ci.Kind == "ord" && ((ci.A == r.D.D(sv) && endD[ci.B]) || (ci.B == r.D.D(sv) && endD[ci.A])) {
+				ordKeys[k] = ci.A != r.D.D(sv)
+				if ordKey == "" || (ci.A == r.D.D(E) || ci.B == r.D.D(E)) {
+					ordKey = k
+				}
 			}
 		}
-		contKey := ""
+		contKey, updKey := "", ""
 		for k := range r.D.AtomsOf(fn) {
 			if glob("*.opts.Continuous", k) {
 				contKey = k
 			}
+			if glob("nil?(*scanner.Fetcher).updateSTH(*", k) {
+				updKey = k
+			}
 		}
-		sends := sendsOn(fn, "chan scanner.fetchRange")
 		upd := asInstrs(CallsTo(fn, "(*scanner.Fetcher).updateSTH"))
 		if ordKey == "" || contKey == "" || len(sends) != 1 || len(upd) != 1 {
 			r.Fail("genRanges:loop", r.FnPos(fn), fmt.Sprintf("undecided: loop condition atoms (%q, %q), %d sends, %d STH updates", ordKey, contKey, len(sends), len(upd)))
 		} else {
-			ci := r.D.AtomsOf(fn)[ordKey]
-			lt, gt := "<", ">"
-			if ci.A != r.D.D(S) {
-				lt, gt = ">", "<"
+			if EV != nil && EV.why == "" && EV.phi == nil {
+				if why := c16EndStable(r, fn, EV, ordKey, ss[0].Block()); why != "" {
+					r.Fail("genRanges:loop", r.FnPos(fn), "undecided: "+why)
+				}
 			}
-			header := S.Block()
-			for _, o := range []struct{ name, v string }{{"start<end", lt}, {"start=end", "="}, {"start>end", gt}} {
+			flip := map[string]string{"<": ">", "=": "=", ">": "<"}
+			if updKey == "" {
+				updKey = "nil?(*scanner.Fetcher).updateSTH(*^&(p0), *^&(p1))"
+			}
+			for _, o := range []struct{ name, v string }{{"start<end", "<"}, {"start=end", "="}, {"start>end", ">"}} {
 				for _, c := range []string{"T", "F"} {
-					reach := r.D.Walk(fn, Sigma{ordKey: o.v, contKey: c, "nil?(*scanner.Fetcher).updateSTH(*^&(p0), *^&(p1))": "nil"}, header, map[*ssa.BasicBlock]bool{header: true})
+					sg := Sigma{contKey: c, updKey: "nil"}
+					for k, flipped := range ordKeys {
+						if flipped {
+							sg[k] = flip[o.v]
+						} else {
+							sg[k] = o.v
+						}
+					}
+					reach := r.D.Walk(fn, sg, header, map[*ssa.BasicBlock]bool{header: true})
 					r.Valuations++
 					sent := reach.Has(sends[0])
 					updated := reach.Has(upd[0])
@@ -204,7 +333,7 @@ func c16GenRanges(r *Run, fn *ssa.Function) {
 					r.Check("genRanges:loop["+o.name+",continuous="+c+"].refreshes-sth", updated == wantUpd, r.Where(upd[0]), fmt.Sprintf("STH refreshed=%v, wanted %v", updated, wantUpd))
 				}
 			}
-			r.MustGuardAfter(fn, "genRanges:sth-error-stops", "nil?(*scanner.Fetcher).updateSTH(*)", "non", sends, "emission of a range")
+			r.MustGuardAfter(fn, "genRanges:sth-error-stops", "nil?(*scanner.Fetcher).updateSTH(*", "non", sends, "emission of a range")
 		}
 		// the send is a select with ctx.Done()
 		if len(sends) == 1 {
